@@ -15,6 +15,9 @@ pub const BUDGET: usize = 16_384 - 127;
 
 #[derive(Clone, Debug, Serialize, Deserialize)]
 pub struct Case {
+    /// 0 steered / high-entropy entries; 1 compressible entries (sequential ids, equal lengths, contiguous offsets)
+    #[serde(default)]
+    pub shape: u8,
     pub seed: u64,
     /// target size in bytes of the single-root encoding (steered), or an entry count when `by_count`
     pub target: u32,
@@ -146,6 +149,12 @@ pub fn steer_codec(seed: u64, target: usize, c: u8, a: bool) -> Result<Vec<SEntr
 }
 
 pub fn build_entries(c: &Case) -> Result<Vec<SEntry>, Fail> {
+    if c.shape == 1 {
+        // long but highly compressible list: under a codec it fits a single root although it has far more
+        // entries than an uncompressed root could hold
+        let first = c.seed % 1000;
+        return Ok((0..u64::from(c.target)).map(|i| SEntry { id: first + i, off: 40 * i, len: 40, run: 1 }).collect());
+    }
     if c.by_count {
         let mut es = entropy_entries(c.seed, c.target as usize);
         // mix in runs and contiguous offsets
@@ -311,7 +320,7 @@ fn strategy() -> impl Strategy<Value = Case> {
         .prop_map(|(seed, target, codec, start, asyncw, pos0)| {
             // start size 1 on a big list means one codec stream per entry and many doubling rounds: keep those lists moderate
             let target = if start == Some(1) || start == Some(2) { target.min(17_000) } else { target };
-            Case { seed, target, by_count: false, codec, start, asyncw, pos0 }
+            Case { shape: 0, seed, target, by_count: false, codec, start, asyncw, pos0 }
         })
 }
 
@@ -332,10 +341,28 @@ pub fn run(ctx: &Ctx) {
             let n = [0u32, 1, 2, 500, 3000, 4100, 9000, 20_000, 50_000, 100_000, 7000, 12_000][i % 12];
             let codec = 1 + ((i / 3) % 4) as u8;
             let n = if codec == 3 { n.min(20_000) } else { n };
-            Case { seed: ctx.seed + i as u64, target: n, by_count: true, codec, start: [None, Some(4096), Some(7), Some(300_000)][(i / 2) % 4], asyncw: i % 2 == 1, pos0: if i % 3 == 0 { 333 } else { 0 } }
+            Case { shape: 0, seed: ctx.seed + i as u64, target: n, by_count: true, codec, start: [None, Some(4096), Some(7), Some(300_000)][(i / 2) % 4], asyncw: i % 2 == 1, pos0: if i % 3 == 0 { 333 } else { 0 } }
         })
         .collect();
     run_list(ctx, "lists-by-count", &counts, check);
+    // compressible lists far longer than an uncompressed root could hold (must stay a single root under a codec,
+    // must spill uncompressed), and uncompressed lists with tiny initial leaf sizes whose first pointer-only root
+    // attempts are far beyond 64 KiB
+    let mut shaped: Vec<Case> = Vec::new();
+    for (k, n) in [4065u32, 4100, 5000, 10_000, 20_000, 50_000].iter().enumerate() {
+        for codec in [2u8, 3, 4, 1] {
+            if codec == 3 && *n > 20_000 && ctx.tier == crate::engine::Tier::Quick {
+                continue;
+            }
+            shaped.push(Case { shape: 1, seed: ctx.seed + k as u64, target: *n, by_count: true, codec, start: [None, Some(4096), Some(1000)][k % 3], asyncw: (k + usize::from(codec)) % 2 == 0, pos0: 0 });
+        }
+    }
+    for (k, n) in [16_384u32, 17_000, 20_000, 33_000, 40_000, 70_000].iter().enumerate() {
+        for start in [1u32, 2, 3] {
+            shaped.push(Case { shape: (k % 2) as u8, seed: ctx.seed + 50 + k as u64, target: *n, by_count: true, codec: 1, start: Some(start), asyncw: (k + start as usize) % 2 == 1, pos0: if k % 3 == 1 { 77 } else { 0 } });
+        }
+    }
+    run_list(ctx, "compressible-and-tiny-leaf-lists", &shaped, check);
     // exact boundary for every codec / kind (uncompressed exact; codecs best effort)
     let mut edge: Vec<Case> = Vec::new();
     for codec in 1..=4u8 {
@@ -345,7 +372,7 @@ pub fn run(ctx: &Ctx) {
                     if start == Some(1) && codec == 3 {
                         continue;
                     }
-                    edge.push(Case { seed: ctx.seed ^ u64::from(t) ^ u64::from(codec) << 20, target: t, by_count: false, codec, start, asyncw, pos0: 0 });
+                    edge.push(Case { shape: 0, seed: ctx.seed ^ u64::from(t) ^ u64::from(codec) << 20, target: t, by_count: false, codec, start, asyncw, pos0: 0 });
                 }
             }
         }
@@ -360,7 +387,7 @@ pub fn run(ctx: &Ctx) {
 
 pub fn replay(sub: &str, case: &Value) -> Option<CaseResult> {
     match sub {
-        "steered-lists" | "lists-by-count" | "budget-edges-every-codec" => Some(check(&super::de(case)?)),
+        "steered-lists" | "lists-by-count" | "budget-edges-every-codec" | "compressible-and-tiny-leaf-lists" => Some(check(&super::de(case)?)),
         "whole-archive-writes" => Some(check_archive(&super::de(case)?)),
         _ => None,
     }
